@@ -163,7 +163,7 @@ def case(ctx, rng, idx, state):
 if __name__ == "__main__":
     harness.main(
         PROP, "exploration", case, setup_fn=setup,
-        tiers=dict(quick=dict(cases=64, shards=8, time=240), thorough=dict(cases=320, shards=16, time=1500)),
+        tiers=dict(quick=dict(cases=64, shards=8, time=900), thorough=dict(cases=320, shards=16, time=3000)),
         rule="24 crystal-structure templates (P1 ... Pm-3m, chiral, polar, non-primitive, ferro-/antiferro-/non-collinear magnetic) x spinless/spinful "
              "(covariant SOC, Zeeman) symmetric-by-construction tight-binding models, random symmetric NKdiv/NKFFT (<=64 k-points), 14 (quick) / 30-all "
              "(thorough) calculators drawn from every calculator class incl. variants + a grid tabulator; distinct = (structure, spin, grid, calculator, "
